@@ -64,7 +64,7 @@ func init() {
 	reg("C15", propCfg{Quick: tierCfg{Checks: 100000, Timeout: 8 * m}, Thor: tierCfg{Checks: 50000000, Timeout: 90 * m}})
 	reg("C16", propCfg{Quick: tierCfg{Checks: 100000, Timeout: 8 * m}, Thor: tierCfg{Checks: 10000000, Timeout: 90 * m}})
 	reg("C17", propCfg{Quick: tierCfg{Checks: 20000, Timeout: 8 * m}, Thor: tierCfg{Checks: 1000000, Timeout: 90 * m}})
-	reg("C18", propCfg{Quick: tierCfg{Checks: 20000, Timeout: 8 * m}, Thor: tierCfg{Checks: 1000000, Timeout: 90 * m}})
+	reg("C18", propCfg{Quick: tierCfg{Checks: 30000, Timeout: 8 * m}, Thor: tierCfg{Checks: 1000000, Timeout: 90 * m}})
 	reg("C19", propCfg{Race: true, Quick: tierCfg{Checks: 160, Shards: 4, Timeout: 8 * m}, Thor: tierCfg{Checks: 6000, Shards: 4, Timeout: 90 * m}})
 	reg("C20", propCfg{Quick: tierCfg{Checks: 400000, Timeout: 8 * m}, Thor: tierCfg{Checks: 12000000, Timeout: 90 * m}})
 }
